@@ -228,7 +228,6 @@ func init() {
 					r.Trans(len(hist))
 					r.Trace(1)
 					if f != nil {
-						f.Sig += " (long walk)"
 						r.Report(f)
 						r.Outcome(f.Sig)
 					}
